@@ -778,6 +778,10 @@ func (f *transformationCallable) updateEntries(item reflect.Value) error {
 		return newEvalError(ErrIllegalUpdate, f.updates, nil)
 	}
 
+	// The object can be wrapped in an interface value, e.g.
+	// when it is an item of an array. Unwrap it to read its keys.
+	updates = jtypes.Resolve(updates)
+
 	for _, key := range updates.MapKeys() {
 		item.SetMapIndex(key, updates.MapIndex(key))
 	}
